@@ -1,0 +1,27 @@
+//go:build verif
+// +build verif
+
+package loader
+
+import (
+	"github.com/bytedance/sonic/loader/internal/rt"
+)
+
+// VerifStackMap runs rt.StackMapBuilder (AddField per element, Build) and returns what the runtime is handed:
+// the number of bitmaps, the bits per bitmap, the marshalled bitmap bytes (header stripped), and every bit read
+// back through rt.BitVec.Bit. Verification hook, build tag verif.
+func VerifStackMap(bits []bool) (n int32, l int32, data []byte, readback []byte) {
+	b := rt.StackMapBuilder{}
+	for _, x := range bits {
+		b.AddField(x)
+	}
+	sm := b.Build()
+	raw, _ := sm.MarshalBinary()
+	n, l = sm.N, sm.L
+	data = append([]byte(nil), raw[sm.StackMapHeaderSize():]...)
+	bv := sm.Get(0)
+	for i := 0; i < len(bits); i++ {
+		readback = append(readback, bv.Bit(uintptr(i)))
+	}
+	return
+}
